@@ -62,6 +62,19 @@ def make_value(ctx, kind, name):
         return fresh_array(ctx, name, tuple(shape), dtype)
     if tag == "const":
         return kw["value"]
+    if tag == "posfunc":
+        # an arbitrary positive real function of one real argument (e.g. a saturation pressure curve)
+        f = z3.Function(ctx.fresh_name(name), z3.RealSort(), z3.RealSort())
+
+        def call(x):
+            if isinstance(x, SArr):
+                return sym.elementwise(call, [x], "real")
+            r = Sym(f(sym.to_real(sym.lift(x))))
+            ctx.assume(r > 0)
+            return r
+        call.__name__ = name
+        call.__pyvc_native__ = True
+        return call
     raise ValueError("unknown kind %r" % (kind,))
 
 
@@ -316,6 +329,15 @@ class Registry:
             for j, r in enumerate(c.requires):
                 g = self.eval_clause(interp, r, c, envk)
                 ctx.oblige("pre/%s->%s/%d" % (caller, c.short, j), g, clause=r)
+        if c.raises and not ctx.spec_mode:
+            from .interp import PyRaise
+            for cond, exc in c.raises:
+                def cfn(*idx, cond=cond):
+                    envi = {n: sym.index_into(v, idx, nd) for n, v in env.items()}
+                    return self.eval_clause(interp, cond, c, envi)
+                some = interp.models.np_any(SArr(shape, cfn, "bool"))
+                if ctx.branch(sym.truth(some)):
+                    raise PyRaise(exc("raised per contract of %s" % c.short))
         memo = {}
 
         def fn(*idx):
